@@ -226,6 +226,8 @@ pub struct Outcome {
     /// corpus: rare conditions it reached (e.g. a draw ending in a blank, a
     /// particular set of error codes)
     pub harvest: Vec<String>,
+    /// engine-specific by-products (C13: the subjects' MT texts with their error codes)
+    pub artifacts: Vec<serde_json::Value>,
 }
 
 impl Outcome {
